@@ -551,13 +551,37 @@ func Check(d Driver, tier string, seed uint64, workers int, cfg TierCfg) int {
 			continue
 		}
 		seenSig[sig] = true
-		out, err := exec.Command(self, "replay", vr.Replay).CombinedOutput()
-		if err == nil || !strings.Contains(string(out), "REPRODUCED") {
-			fmt.Fprintf(os.Stderr, "harness: replay %s did not reproduce in a fresh process (exit %v):\n%s\n", vr.Replay, err, tail(string(out), 1500))
+		// Exact reproduction is the rule. If the system under test is itself nondeterministic
+		// (e.g. its verdict depends on Go's map iteration order) the same violation class may
+		// come back with another digest, or only in some executions: a violation seen in a
+		// worker AND again in a fresh process is reported, with a note; one that never comes
+		// back in 5 fresh processes is harness trouble.
+		exact, sameClass, attempts := false, 0, 0
+		var out []byte
+		var err error
+		for attempts = 1; attempts <= 5; attempts++ {
+			out, err = exec.Command(self, "replay", vr.Replay).CombinedOutput()
+			first := strings.SplitN(string(out), "\n", 2)[0]
+			if strings.HasPrefix(first, "REPRODUCED") {
+				exact = true
+				break
+			}
+			if strings.HasPrefix(first, "DIVERGED") {
+				sameClass++
+				if sameClass >= 2 {
+					break
+				}
+			}
+		}
+		if !exact && sameClass == 0 {
+			fmt.Fprintf(os.Stderr, "harness: replay %s did not reproduce in 5 fresh processes (exit %v):\n%s\n", vr.Replay, err, tail(string(out), 1500))
 			return 2
 		}
 		fmt.Printf("VIOLATION property=%s replay=%s\n", vr.V.Property, vr.Replay)
 		fmt.Printf("  class=%s features=%v\n  %s\n", vr.V.Class, vr.V.Features, vr.V.Detail)
+		if !exact {
+			fmt.Printf("  note: the same violation class reproduced in a fresh process but with a different execution digest (%d of %d replays): the behaviour of the code under test is not a function of the case (map iteration order?)\n", sameClass, attempts-1+boolToInt(attempts <= 5))
+		}
 		violations++
 		exit = 1
 	}
@@ -648,6 +672,13 @@ func tail(s string, n int) string {
 		return s[len(s)-n:]
 	}
 	return s
+}
+
+func boolToInt(b bool) int {
+	if b {
+		return 1
+	}
+	return 0
 }
 
 // TierTable holds per-property tier budgets (filled by the props package).
